@@ -60,7 +60,25 @@ func runC12(c *Ctx) {
 	if !c.R.Anchor(ll != nil, "v2.(*Classifier).LoadLicenses") {
 		return
 	}
-	fns := core.WithAnon(ll)
+	// LoadLicenses and the unexported helpers it is split into (up to, not including, AddContent)
+	ac := p.Func(v2pkg, "(*Classifier).AddContent")
+	var fns []*ssa.Function
+	seenFn := map[*ssa.Function]bool{}
+	var collect func(f *ssa.Function, depth int)
+	collect = func(f *ssa.Function, depth int) {
+		if f == nil || seenFn[f] || f == ac || depth > 3 || core.FuncPkgPath(f) != v2pkg || len(f.Blocks) == 0 || isTraceFn(f) {
+			return
+		}
+		seenFn[f] = true
+		fns = append(fns, f)
+		for _, a := range f.AnonFuncs {
+			collect(a, depth)
+		}
+		for _, call := range core.CallsIn(f) {
+			collect(eng.ResolveCallee(call.Common().Value), depth+1)
+		}
+	}
+	collect(ll, 0)
 
 	// R12.1
 	obls := eng.FindNonEmpty(fns)
@@ -88,7 +106,9 @@ func runC12(c *Ctx) {
 	// R12.4
 	ok, why := assetTreeShape(c, p)
 	c.R.Check(ok, "R12.4", "embedded asset tree: every file is category/name/variant and ends in txt", "v2/assets", why, why)
-	checkAddContentArgs(c, p, ll, "segments")
+	for _, f := range fns {
+		checkAddContentArgs(c, p, f, "segments")
+	}
 	if dc := p.Func(core.V2Mod+"/assets", "DefaultClassifier"); c.R.Anchor(dc != nil, "v2/assets.DefaultClassifier") {
 		for _, f := range core.WithAnon(dc) {
 			checkAddContentArgs(c, p, f, "splits")
@@ -233,6 +253,16 @@ func checkDirTaint(c *Ctx, p *core.Prog, ll *ssa.Function) {
 				if f := cc.StaticCallee(); f != nil && isTraceFn(f) {
 					continue
 				}
+				// an unexported helper of the same package: the parameter that receives it is raw too
+				if f := cc.StaticCallee(); f != nil && core.FuncPkgPath(f) == v2pkg && len(f.Blocks) > 0 && (f.Object() == nil || !f.Object().Exported()) {
+					for i, a := range cc.Args {
+						if a == v && i < len(f.Params) && !tainted[f.Params[i]] {
+							tainted[f.Params[i]] = true
+							work = append(work, f.Params[i])
+						}
+					}
+					continue
+				}
 				switch name {
 				case "fmt.Sprintf", "fmt.Sprint", "fmt.Errorf":
 					if call, ok := x.(*ssa.Call); ok {
@@ -309,37 +339,44 @@ func checkAddContentArgs(c *Ctx, p *core.Prog, fn *ssa.Function, what string) {
 		}
 		args := call.Common().Args
 		ok, why := true, "AddContent(x[0], x[1], x[2], bytes) on one split of the relative path"
-		var split ssa.Value
-		for i := 1; i <= 3 && i < len(args); i++ {
-			ld, isLd := args[i].(*ssa.UnOp)
-			if !isLd {
-				ok, why = false, fmt.Sprintf("argument %d of AddContent is not a path component", i)
-				break
-			}
-			ia, isIA := ld.X.(*ssa.IndexAddr)
-			if !isIA {
-				ok, why = false, fmt.Sprintf("argument %d of AddContent is not a path component", i)
-				break
-			}
-			k, isK := core.ConstInt(ia.Index)
-			if !isK || k != int64(i-1) {
-				ok, why = false, fmt.Sprintf("argument %d of AddContent is path component %d, expected %d", i, k, i-1)
-				break
-			}
-			if split == nil {
-				split = ia.X
-			} else if split != ia.X {
-				ok, why = false, "the three components come from different splits"
-			}
+		if len(args) < 4 {
+			continue
 		}
-		if ok && split != nil {
-			if sc, isCall := split.(*ssa.Call); !isCall || core.StaticCalleeName(&sc.Call) != "strings.Split" {
-				ok, why = false, "the components are not taken from strings.Split of the relative path"
-			} else if fn.Name() == "LoadLicenses" {
-				// the string split must be the result of filepath.Rel
-				src := sc.Call.Args[0]
-				if ex, isEx := src.(*ssa.Extract); !isEx || !isCallTo(ex.Tuple, "path/filepath.Rel") {
-					ok, why = false, "the path that is split is not the result of filepath.Rel(dir, file)"
+		vals := []ssa.Value{core.Unspill(args[1]), core.Unspill(args[2]), core.Unspill(args[3])}
+		for _, tup := range callSiteTuples(p, vals) {
+			var split ssa.Value
+			for i := 1; i <= 3; i++ {
+				ld, isLd := tup[i-1].(*ssa.UnOp)
+				if !isLd {
+					ok, why = false, fmt.Sprintf("argument %d of AddContent is not a path component", i)
+					break
+				}
+				ia, isIA := ld.X.(*ssa.IndexAddr)
+				if !isIA {
+					ok, why = false, fmt.Sprintf("argument %d of AddContent is not a path component", i)
+					break
+				}
+				k, isK := core.ConstInt(ia.Index)
+				if !isK || k != int64(i-1) {
+					ok, why = false, fmt.Sprintf("argument %d of AddContent is path component %d, expected %d", i, k, i-1)
+					break
+				}
+				if split == nil {
+					split = ia.X
+				} else if split != ia.X {
+					ok, why = false, "the three components come from different splits"
+				}
+			}
+			if ok && split != nil {
+				sc, isCall := split.(*ssa.Call)
+				if !isCall || core.StaticCalleeName(&sc.Call) != "strings.Split" {
+					ok, why = false, "the components are not taken from strings.Split of the relative path"
+				} else if core.FuncPkgPath(fn) == v2pkg {
+					// the string split must be the result of filepath.Rel
+					src := sc.Call.Args[0]
+					if ex, isEx := src.(*ssa.Extract); !isEx || !isCallTo(ex.Tuple, "path/filepath.Rel") {
+						ok, why = false, "the path that is split is not the result of filepath.Rel(dir, file)"
+					}
 				}
 			}
 		}
